@@ -82,6 +82,14 @@ func init() {
 		abs, ns, _, _ := timeParts(args[0])
 		return ex.mkTime(abs, ns, Var("time.Local", "Loc"))
 	})
+	// time.After(d): a channel that delivers once d has passed; receiving from it holds the caller for d
+	// (the same event on the ghost clock as time.Sleep(d))
+	reg("time.After", func(ex *Exec, st *State, instr ssa.Instruction, args []Value) Value {
+		id := ex.fresh("timer", SInt)
+		st.assume(Eq(App("chan.cap", SInt, id), IntLit(1)))
+		st.ghost["$timer!"+id.Name] = args[0]
+		return &VOpaque{T: instr.(ssa.Value).Type(), ID: id}
+	})
 	reg("time.Now", func(ex *Exec, st *State, instr ssa.Instruction, args []Value) Value {
 		abs := ex.fresh("now.abs", SInt)
 		ns := ex.fresh("now.ns", SInt)
@@ -95,7 +103,6 @@ func init() {
 		st.assume(And(Le(IntLit(unixToInternal), abs), Le(abs, IntLit(315537897599))))
 		return ex.mkTime(abs, ns, Var("time.Local", "Loc"))
 	})
-	reg("time.Sleep", func(ex *Exec, st *State, instr ssa.Instruction, args []Value) Value { return &VTuple{} })
 	reg("(time.Month).String", func(ex *Exec, st *State, instr ssa.Instruction, args []Value) Value { return ex.fresh("month.str", SStr) })
 	reg("(time.Weekday).String", func(ex *Exec, st *State, instr ssa.Instruction, args []Value) Value {
 		return App("time.weekdayName", SStr, args[0].(*Term))
@@ -130,6 +137,12 @@ func parseLayout(layout string) ([]layTok, bool) {
 	for i < len(layout) {
 		rest := layout[i:]
 		switch {
+		case rest == "MST" && len(out) > 0 && out[len(out)-1].kind == "lit":
+			out = append(out, layTok{kind: "zoneMST"})
+			i += 3
+		case rest == "-0700" && len(out) > 0 && out[len(out)-1].kind == "lit":
+			out = append(out, layTok{kind: "zoneNum"})
+			i += 5
 		case len(rest) >= 4 && rest[:4] == "2006":
 			out = append(out, layTok{kind: "year4"})
 			i += 4
@@ -171,6 +184,8 @@ func layoutLen(toks []layTok) int {
 			n += 4
 		case "lit":
 			n++
+		case "zoneMST", "zoneNum":
+			// variable width: not part of the fixed prefix
 		default:
 			n += 2
 		}
@@ -190,10 +205,14 @@ func modelTimeFormat(ex *Exec, st *State, instr ssa.Instruction, args []Value) V
 		return ex.fresh("format", SStr)
 	}
 	toks, ok := parseLayout(lay)
+	if ok && toks[len(toks)-1].kind == "zoneNum" {
+		ok = false
+	}
 	if !ok {
 		ex.cur.libCalls["time.Format layout "+lay+" (no contract: opaque string)"] = true
 		return ex.fresh("format", SStr)
 	}
+	zoned := toks[len(toks)-1].kind == "zoneMST"
 	year := App("time.year", SInt, abs, loc)
 	hasYear4 := false
 	for _, t := range toks {
@@ -212,8 +231,18 @@ func modelTimeFormat(ex *Exec, st *State, instr ssa.Instruction, args []Value) V
 	}
 	r := ex.fresh("format", SStr)
 	n := layoutLen(toks)
-	st.assume(Eq(App("slen", SInt, r), IntLit(int64(n))))
-	ex.cur.strLens[r.Key()] = int64(n)
+	if zoned {
+		// the zone designation (spec/time.spec: time.zonename) follows the fixed-width part
+		z := App("time.zonename", SStr, loc, abs)
+		zl := App("slen", SInt, z)
+		st.assume(And(Le(IntLit(1), zl), Le(zl, IntLit(16))))
+		st.assume(Eq(App("slen", SInt, r), Add(IntLit(int64(n)), zl)))
+		st.assume(Eq(App("str.tail", SStr, r, IntLit(int64(n))), z))
+		ex.cur.libCalls["time.Format layout with MST (zone designation: spec function time.zonename)"] = true
+	} else {
+		st.assume(Eq(App("slen", SInt, r), IntLit(int64(n))))
+		ex.cur.strLens[r.Key()] = int64(n)
+	}
 	pos := int64(0)
 	put := func(c *Term) {
 		st.assume(Eq(App("sat", SInt, r, IntLit(pos)), c))
@@ -272,12 +301,32 @@ func modelParseInLocation(ex *Exec, st *State, instr ssa.Instruction, args []Val
 	if kn, ok := ex.knownStrLen(st, s); ok {
 		slen = IntLit(kn)
 	}
-	// longer input: fractional seconds / trailing text rules are not modelled
-	if ex.decide(st, Gt(slen, IntLit(n))) {
-		return opaque()
+	zoneKind := ""
+	if k := toks[len(toks)-1].kind; k == "zoneMST" || k == "zoneNum" {
+		zoneKind = k
+		toks = toks[:len(toks)-1]
 	}
-	if ex.decide(st, Lt(slen, IntLit(n))) {
-		return tuple(ex.zeroValue(tt), ex.newError(st, "parse"))
+	if zoneKind != "" {
+		// the fixed-width part and at least one character of zone designation
+		if ex.decide(st, Le(slen, IntLit(n))) {
+			return tuple(ex.zeroValue(tt), ex.newError(st, "parse"))
+		}
+	} else {
+		if ex.decide(st, Gt(slen, IntLit(n))) {
+			// longer input: after a seconds field a '.' or ',' starts fractional seconds (not modelled);
+			// anything else is "extra text", an error
+			if toks[len(toks)-1].kind != "second" {
+				return tuple(ex.zeroValue(tt), ex.newError(st, "parse"))
+			}
+			c := App("sat", SInt, s, IntLit(n))
+			if ex.decide(st, Or(Eq(c, IntLit('.')), Eq(c, IntLit(',')))) {
+				return opaque()
+			}
+			return tuple(ex.zeroValue(tt), ex.newError(st, "parse"))
+		}
+		if ex.decide(st, Lt(slen, IntLit(n))) {
+			return tuple(ex.zeroValue(tt), ex.newError(st, "parse"))
+		}
 	}
 	// exact length: shape and fields
 	var shape []*Term
@@ -322,6 +371,35 @@ func modelParseInLocation(ex *Exec, st *State, instr ssa.Instruction, args []Val
 		return tuple(ex.zeroValue(tt), ex.newError(st, "parse"))
 	}
 	c := App("time.civil", SInt, year, month, day, hour, minute, second)
+	if zoneKind != "" {
+		// zone designation after the fixed-width part (spec/time.spec, "zone designations"): its form decides
+		// whether the layout accepts it; an abbreviation is looked up in the location, a numeric offset applied
+		ex.cur.libCalls["time.ParseInLocation layout with "+map[string]string{"zoneMST": "MST", "zoneNum": "-0700"}[zoneKind]+" (zone designation: spec functions time.zoneform / lookupOK / lookupOff / numoff)"] = true
+		z := App("str.tail", SStr, s, IntLit(n))
+		form := App("time.zoneform", SInt, z)
+		if zoneKind == "zoneMST" {
+			if ex.decide(st, Eq(form, IntLit(0))) { // "UTC"
+				return tuple(ex.mkTime(c, IntLit(0), Var("time.UTC", "Loc")), nilIface())
+			}
+			if !ex.decide(st, Or(Eq(form, IntLit(1)), Eq(form, IntLit(2)))) {
+				return tuple(ex.zeroValue(tt), ex.newError(st, "parse"))
+			}
+			if ex.decide(st, App("time.lookupOK", SBool, loc, z, c)) {
+				return tuple(ex.mkTime(Sub(c, App("time.lookupOff", SInt, loc, z, c)), IntLit(0), loc), nilIface())
+			}
+			// unknown abbreviation: a fabricated zone (offset 0, or the hours of GMT+h)
+			fz := ex.fresh("fixedzone", "Loc")
+			return tuple(ex.mkTime(Sub(c, App("time.gmtoff", SInt, z)), IntLit(0), fz), nilIface())
+		}
+		// -0700: sign, two digits of hours, two digits of minutes
+		if !ex.decide(st, Eq(form, IntLit(3))) {
+			return tuple(ex.zeroValue(tt), ex.newError(st, "parse"))
+		}
+		abs := Sub(c, App("time.numoff", SInt, z))
+		rl := ex.fresh("parsedzone", "Loc") // the location if its offset agrees, else a fixed zone: either way this offset
+		st.assume(Eq(App("time.off", SInt, rl, abs), App("time.numoff", SInt, z)))
+		return tuple(ex.mkTime(abs, IntLit(0), rl), nilIface())
+	}
 	abs := App("time.dateAbs", SInt, c, loc)
 	// remember the parsed fields (ghost) for contracts: parse.fields(result) - via naming
 	res := ex.mkTime(abs, IntLit(0), loc)
